@@ -1075,12 +1075,32 @@ def m_unpack_from(ex, args, kw):
 
 @model(struct.pack_into)
 def m_pack_into(ex, args, kw):
+    """CPython checks the buffer size, zeroes the destination and then
+    converts value by value: after a refused value the region's content is
+    unspecified (modelled as arbitrary bytes), unlike pack + slice assignment"""
+    from .exec import PyRaise
+    from .types import T, fresh
     fmt, buf, offset = args[0], args[1], args[2]
-    data = do_pack(ex, fmt, list(args[3:]))
-    n = ops.b_len(lift_bytes(data))
     off = lift_int(offset)
     if not isinstance(buf, MutBytes):
         raise OutOfReach("pack_into a buffer that is not a bytearray")
+    if isinstance(fmt, str):
+        try:
+            n0 = struct.calcsize(fmt)
+        except struct.error:
+            ex.raise_builtin(struct.error, "bad format")
+        if ex.fork(z3.Or(off < 0, off + n0 > b_len(buf.t)), "pack_into beyond the buffer"):
+            ex.raise_builtin(struct.error, "pack_into requires a buffer of sufficient size")
+        try:
+            data = do_pack(ex, fmt, list(args[3:]))
+        except PyRaise:
+            junk = fresh(ex, T.Bytes, "pack_into_refused")
+            ex.assume(b_len(junk.t) == n0)
+            ex.lib.setslice(ex, buf, Sym(off, INT), Sym(z3.simplify(off + n0), INT), junk)
+            raise
+    else:
+        data = do_pack(ex, fmt, list(args[3:]))
+    n = ops.b_len(lift_bytes(data))
     if ex.fork(z3.Or(off < 0, off + n > b_len(buf.t)), "pack_into beyond the buffer"):
         ex.raise_builtin(struct.error, "pack_into requires a buffer of sufficient size")
     ex.lib.setslice(ex, buf, Sym(off, INT), Sym(z3.simplify(off + n), INT), data)
